@@ -6,6 +6,8 @@ import Driver.PV
 import Driver.FQ
 import Driver.CO
 import Driver.LT
+import Driver.SU
+import Driver.MG
 /-!
 Line-protocol driver: one operation per input line, one observation per output line:
 `<model observation>\t<spec observation>`.  First token selects the component.
@@ -21,6 +23,8 @@ structure All where
   fq : FQ.St := {}
   co : CO.St := {}
   lt : LT.St := {}
+  su : SU.St := {}
+  mg : MG.St := {}
 
 def stepAll (s : All) (line : String) : All × String :=
   match (line.trimAscii.toString.splitOn " ").filter (· ≠ "") with
@@ -48,6 +52,12 @@ def stepAll (s : All) (line : String) : All × String :=
   | "lt" :: args =>
       let (c, a, b) := LT.step s.lt args
       ({ s with lt := c }, a ++ "\t" ++ b)
+  | "su" :: args =>
+      let (c, a, b) := SU.step s.su args
+      ({ s with su := c }, a ++ "\t" ++ b)
+  | "mg" :: args =>
+      let (c, a, b) := MG.step s.mg args
+      ({ s with mg := c }, a ++ "\t" ++ b)
   | [] => (s, "")
   | _ => (s, "bad-component\tbad-component")
 
